@@ -20,7 +20,7 @@ func init() {
 	register(&Check{
 		ID: "C13", Level: "exploration", Primary: "sessions", EvalCount: "sessions_checked", RaceIsViolation: false,
 		Rule: "one session = a standards-conforming StartTLS upgrade (go-ldap's StartTLS, and a raw client that waits for the response before its ClientHello) through a wiretap proxy recording both directions, " +
-			"against a StartTLS handler (registered on the exact-name route, or - every third timing - performed by the default route) with delays in {0,1,5,50ms, and 0.7-3s} before the reply, between the reply and Request.StartTLS, and after it; 1..64 sessions upgrade in parallel, some after an answered bind/search on the still-plain connection whose handler lingers 300ms, some next to (and after) other sessions that take the StartTLS reply and then send garbage, half a ClientHello or nothing - two (every fourth timing: twenty) of them stay like that, open, for as long as the conforming sessions run; some sessions end with an operation gldap does not serve (Compare) sent inside the tunnel; raw-client sessions ask for a streamed answer (one entry, the rest only after the client has seen it); every fourth timing builds the StartTLS reply with the general constructor; after the upgrade a mix of requests " +
+			"against a StartTLS handler (registered on the exact-name route, or - every third timing - performed by the default route) with delays in {0,1,5,50ms, and 0.7-3s} before the reply, between the reply and Request.StartTLS, and after it; 1..64 sessions upgrade in parallel, some after an answered bind/search on the still-plain connection whose handler lingers 300ms, some next to (and after) other sessions that take the StartTLS reply and then send garbage, half a ClientHello or nothing - two (every fourth timing: twenty) of them stay like that, open, for as long as the conforming sessions run; some sessions end with an operation gldap does not serve (Compare) sent inside the tunnel; raw-client sessions ask for a streamed answer (one entry, the rest only after the client has seen it); every fourth timing builds the StartTLS reply with the general constructor; every third timing a second server in the process holds upgraded sessions of its own open on connections of the same numbers; after the upgrade a mix of requests " +
 			"(go-ldap bind/search/modify, and pipelined concurrent raw requests over the tunnel) is checked with the C01 comparison; one session keeps using the tunnel after several seconds of think time; part of the sessions stay open and idle until the server is stopped, so that shutdown-time bytes are on the wiretap too. Wiretap oracle: plaintext LDAP frames up to and including the StartTLS request " +
 			"(client->server) / the ExtendedResponse with its message ID (server->client), after which every byte in both directions parses as TLS records (content type 20-23, major version 3, length <= 2^14+2048). " +
 			"distinct_nontrivial = distinct (timing triple, client kind, parallelism) combinations whose upgrade completed",
@@ -28,7 +28,7 @@ func init() {
 		Phases: func(tier string, seed int64) []Phase {
 			return []Phase{{Name: "upgrades", Race: true, Run: c13Run}}
 		},
-		MinObserved: []string{"sessions_checked", "tls_records_classified", "post_upgrade_requests_compared", "sessions_open_and_idle_at_stop", "upgrades_served_by_the_default_route", "requests_answered_after_think_time", "handshakes_failed_or_abandoned_by_other_sessions", "handshakes_left_pending_while_conforming_sessions_upgrade", "sessions_with_an_answered_request_before_the_upgrade", "rendezvous_inside_the_tunnel_satisfied", "high_volume_sessions_after_upgrade", "plaintext_requests_sent_in_the_same_write_as_starttls", "sessions_whose_first_record_is_not_labelled_3_1", "tunnel_requests_checked_against_the_upgrade_handlers_return", "last_requests_sent_together_with_close_notify", "upgrades_after_a_refused_starttls_request", "upgrades_of_connections_opened_seconds_earlier", "sessions_ended_by_an_unsupported_operation_inside_the_tunnel", "starttls_replies_built_with_the_general_constructor", "streamed_entries_received_while_their_handler_was_waiting"},
+		MinObserved: []string{"sessions_checked", "tls_records_classified", "post_upgrade_requests_compared", "sessions_open_and_idle_at_stop", "upgrades_served_by_the_default_route", "requests_answered_after_think_time", "handshakes_failed_or_abandoned_by_other_sessions", "handshakes_left_pending_while_conforming_sessions_upgrade", "sessions_with_an_answered_request_before_the_upgrade", "rendezvous_inside_the_tunnel_satisfied", "high_volume_sessions_after_upgrade", "plaintext_requests_sent_in_the_same_write_as_starttls", "sessions_whose_first_record_is_not_labelled_3_1", "tunnel_requests_checked_against_the_upgrade_handlers_return", "last_requests_sent_together_with_close_notify", "upgrades_after_a_refused_starttls_request", "upgrades_of_connections_opened_seconds_earlier", "sessions_ended_by_an_unsupported_operation_inside_the_tunnel", "starttls_replies_built_with_the_general_constructor", "streamed_entries_received_while_their_handler_was_waiting", "upgraded_sessions_held_open_on_another_server_of_the_process"},
 	})
 }
 
@@ -357,6 +357,35 @@ func c13Timed(c *Ctx, pki *PKI, tm c13Timing, par int, ti int) {
 		return
 	}
 	defer tap.Close()
+	// another server in the same process, with upgraded sessions of its own that stay open for the whole run - on
+	// connections that carry the same numbers as ours will (connection numbers are per server)
+	if ti%3 == 0 && !c.MuteViolations {
+		if other, err := startSrv(SrvCfg{}, func(m *gldap.Mux) {
+			m.ExtendedOperation(func(w *gldap.ResponseWriter, r *gldap.Request) {
+				w.Write(r.NewExtendedResponse(gldap.WithResponseCode(gldap.ResultSuccess)))
+				r.StartTLS(pki.ServerOnly)
+			}, gldap.ExtendedOperationStartTLS)
+		}); err == nil {
+			defer other.StopWithin(patience)
+			for k := 0; k < par+24; k++ {
+				cn, err := net.Dial("tcp", other.Addr)
+				if err != nil {
+					break
+				}
+				defer cn.Close()
+				cn.Write(sber.Message(1, sber.ExtendedRequest([]byte(sber.OIDStartTLS), nil, false), nil).Encode())
+				if _, err := wrapClient(cn).ReadMsg(c13Wait); err != nil {
+					continue
+				}
+				tc := tls.Client(cn, pki.ClientPlain)
+				cn.SetDeadline(time.Now().Add(c13Wait))
+				if tc.Handshake() == nil {
+					c.Count("upgraded_sessions_held_open_on_another_server_of_the_process", 1)
+				}
+				cn.SetDeadline(time.Time{})
+			}
+		}
+	}
 	var wg sync.WaitGroup
 	var mu sync.Mutex
 	var sent []*ReqSpec
